@@ -24,7 +24,7 @@ for pid in ids:
         "evidence_file": "/verif/evidence/%s.json" % pid,
         "replay_cmd_template": "./check replay {path}",
         "engine": "lean-model+cvh",
-        "level_claimed": {"category": "proof", "text": t["text"], "design_ref": t.get("design_ref", "DESIGN.md section 7")},
+        "level_claimed": {"category": "proof", "text": t["text"] + ((" " + t["text_added"]) if t.get("text_added") else ""), "design_ref": t.get("design_ref", "DESIGN.md section 7")},
         "level_note": t["note"],
         "technique": t["technique"],
     })
